@@ -973,6 +973,14 @@ def _check_matrices(ctx, k: K, f: FuncInfo, pre: str, p_units, p_dmat, p_delta, 
             if not all(norm(x[2].value) == p_delta for x in cover):
                 all_ok = False
                 msgs.append(f"{cname} cells hold `{norm(val)}` instead of delta_empty")
+    # every recognised write stays inside the allocation (compiled code is not bounds-checked: a store past the last row is a store into
+    # whatever follows the matrix on the heap)
+    if "matrix-cover" in k.rules:
+        box = ((Lin.num(0), NA + Lin.num(1)), (Lin.num(0), NB + Lin.num(1)))
+        outside = [w for w in writes if not box_contains(box, (w[0][:2], w[1][:2]))]
+        k.rules.setdefault("matrix-bounds", k.rules["matrix-cover"])
+        k.check("matrix-bounds", not outside, outside[0][2] if outside else mdef, f"all {len(writes)} recognised stores into the pair matrix stay inside its (n_a+1) x (n_b+1) allocation",
+                f"`{norm(outside[0][2]) if outside else ''}` stores outside the (n_a+1) x (n_b+1) allocation: compiled code is not bounds-checked, the store lands in foreign memory")
     k.check("matrix-cover", all_ok, mdef,
             "the writes cover the whole (n_a+1) x (n_b+1) box: real cells = d_mat(unit_a, unit_b), last row/column (empty unit) = delta_empty",
             "pair matrix is not fully/rightly initialised: " + "; ".join(msgs))
